@@ -451,6 +451,8 @@ structure DState where
   st : State := init
   maxId : Nat := 0
   mkts : List Nat := []
+  /-- the store the IMPLEMENTATION dumped last (`raw`): listings are judged against its records -/
+  implKv : Option Store := none
 
 def driver : Driver where
   σ := DState
@@ -460,18 +462,19 @@ def driver : Driver where
     let implWs := words (impl.getD "")
     match ws with
     | "raw" :: _ =>
+      let parsed := impl.bind parseRaw
       let v := match impl with
         | none => "-"
-        | some i => match parseRaw i with
+        | some _ => match parsed with
           | none => "fail:unparsed"
           | some s => match checkInv s with | none => "ok" | some c => s!"fail:{c}"
-      (d, showRaw d.st.kv, v)
+      ({ d with implKv := parsed }, showRaw d.st.kv, v)
     | "look" :: r =>
       (d, lookLine d.st.kv r, match impl with | some i => checkLook i | none => "-")
     | "q" :: r =>
       let q := parseQ r
       let pages := if getStr r "mode" = "off" then pagesByOffset d.st.kv q pageCap 0 else pagesByKey d.st.kv q pageCap none
-      (d, "ok " ++ "/".intercalate pages, match impl with | some i => checkQ d.st.kv q (getStr r "mode" = "off") i | none => "-")
+      (d, "ok " ++ "/".intercalate pages, match impl with | some i => checkQ (d.implKv.getD d.st.kv) q (getStr r "mode" = "off") i | none => "-")
     | "q1" :: r =>
       let q := parseQ r
       let key := (kv r "key").bind unhex
@@ -498,29 +501,29 @@ def driver : Driver where
         | some p => "ok " ++ showPayment p | none => "err:invalid"
       (d, out, "-")
     | _ =>
+      -- freshness of ids, judged on what the implementation answered (whatever the model says)
+      let (d1, v) : DState × String :=
+        match ws.head?, implWs with
+        | some "ask", ["ok", i] | some "bid", ["ok", i] =>
+          (match parseNat? i with
+           | some i => ({ d with maxId := max d.maxId i }, if i ≤ d.maxId then "fail:order_id_reused" else "ok")
+           | none => (d, "fail:unparsed"))
+        | some "mkmarket", ["ok", i] =>
+          (match parseNat? i with
+           | some i => ({ d with mkts := i :: d.mkts },
+                        if i = 0 then "fail:market_id_zero" else if i ∈ d.mkts then "fail:market_id_reused" else "ok")
+           | none => (d, "fail:unparsed"))
+        | _, _ => (d, "-")
       match parseOp ws with
-      | none => (d, "bad-op", "-")
+      | none => (d1, "bad-op", v)
       | some o =>
-        match apply d.st o with
-        | none => (d, "err:invalid", "-")
+        match apply d1.st o with
+        | none => (d1, "err:invalid", v)
         | some (st', res) =>
           let out := match res with
             | .none => "ok"
             | .orderId id => s!"ok {id}"
             | .marketId m => s!"ok {m}"
-          -- freshness of ids, judged on what the implementation answered
-          let (d', v) := match res, implWs with
-            | .orderId _, ["ok", i] =>
-              (match parseNat? i with
-               | some i => ({ d with maxId := max d.maxId i },
-                            if i ≤ d.maxId then "fail:order_id_reused" else "ok")
-               | none => (d, "fail:unparsed"))
-            | .marketId _, ["ok", i] =>
-              (match parseNat? i with
-               | some i => ({ d with mkts := i :: d.mkts },
-                            if i = 0 then "fail:market_id_zero" else if i ∈ d.mkts then "fail:market_id_reused" else "ok")
-               | none => (d, "fail:unparsed"))
-            | _, _ => (d, "-")
-          ({ d' with st := st' }, out, v)
+          ({ d1 with st := st', implKv := none }, out, v)
 
 end PvModel.Exrec
